@@ -1,6 +1,8 @@
 mod flow_node;
 mod flow_tree;
 mod signature_cast;
+#[cfg(feature = "verif")]
+mod verif;
 
 use hashbrown::HashMap;
 
